@@ -20,6 +20,7 @@ import (
 	"fmt"
 	"math/rand"
 	"sort"
+	"sync"
 	"testing"
 	"time"
 
@@ -236,8 +237,8 @@ type vC01bGroup struct {
 
 func TestVerif_C01_Changes(t *testing.T) {
 	var behs []vC01bBeh
-	vReadJSON(t, "VERIF_BEH", &behs)
-	tw := vOpenTrace(t, "VERIF_TRACE_OUT")
+	vReadJSON(t, "VERIF_BEH_B", &behs)
+	tw := vOpenTrace(t, "VERIF_TRACE_OUT_B")
 	defer tw.Close()
 	rnd := vRand()
 	midGroups := vEnvInt("VERIF_C01_MID_GROUPS", 3)
@@ -413,6 +414,167 @@ func TestVerif_C01_Changes(t *testing.T) {
 			}
 		}
 	}
-	t.Logf("VERIF-TIMING setup=%v write=%v view=%v requests=%v (%d requests x 4 configurations)", tSetup, tWrite, tView, tReq, nReq)
-	_ = rand.Int
+	fmt.Printf("VERIF-TIMING C01 changes: behaviours=%d setup=%v write=%v view=%v requests=%v (%d requests x 4 configurations)\n", len(behs), tSetup, tWrite, tView, tReq, nReq)
+}
+
+// ---------------------------------------------------------------------------------------------------------------
+// Continuous feeds racing with writers (the "eventually" clause).  Writers (one goroutine per pair of documents, so no
+// write conflicts) create / move / delete / resurrect while continuous feeds are open; after the writers stop every feed
+// is listened to until it has been silent for 1.5 s (150 broadcast intervals of 10 ms).  The
+// harness only decides when to stop listening; whether the final revision of every visible document was delivered is
+// evaluated by TLC (Trace_Changes: REventually) on the recorded rows against the recorded final admin view.  The
+// reproduce-twice rule is applied by checks/C01.py (a miss is only reported if a second run misses too).
+// ---------------------------------------------------------------------------------------------------------------
+type vC01cFeed struct {
+	u      string
+	req    []string
+	mu     sync.Mutex
+	rows   []vObj
+	have   map[string]string // doc -> last rev delivered
+	cancel context.CancelFunc
+	done   chan struct{}
+}
+
+func vC01cRun(t *testing.T, rnd *rand.Rand, round int) (lines []vObj) {
+	grants := map[string][]string{"alice": {"A", "B"}, "bob": {"*"}}
+	co := DefaultCacheOptions()
+	co.BroadcastChangesInterval = 10 * time.Millisecond
+	db, ctx := SetupTestDBWithOptions(t, DatabaseContextOptions{CacheOptions: &co})
+	defer db.Close(ctx)
+	col := GetSingleDatabaseCollection(t, db.DatabaseContext)
+	col.ChannelMapper = channels.NewChannelMapper(ctx, channels.DocChannelsSyncFunction, db.Options.JavascriptTimeout)
+	c := &vC01bCfg{name: "warm", db: db, ctx: ctx, col: col}
+	a := db.Authenticator(ctx)
+	for _, n := range []string{"alice", "bob"} {
+		u, err := a.NewUser(n, "", base.SetFromArray(grants[n]))
+		if err != nil || a.Save(u) != nil {
+			t.Fatalf("VERIF-FATAL user %s: %v", n, err)
+		}
+	}
+	lines = append(lines, vObj{"a": "Reset", "beh": round, "grants": grants, "cfgs": []string{"warm"}})
+	nWriters, perWriter := 3, 10
+	docs := []string{}
+	for w := 0; w < nWriters; w++ {
+		docs = append(docs, fmt.Sprintf("w%d_a_%d", w, round), fmt.Sprintf("w%d_b_%d", w, round))
+	}
+	sort.Strings(docs)
+	lines = append(lines, vObj{"a": "Begin", "beh": round, "docs": docs})
+
+	feeds := []*vC01cFeed{{u: "alice", req: []string{"*"}}, {u: "bob", req: []string{"*"}}, {u: "admin", req: []string{"A", "C"}}, {u: "alice", req: []string{"B"}}}
+	for _, f := range feeds {
+		f.have, f.done = map[string]string{}, make(chan struct{})
+		fctx, cancel := context.WithCancel(ctx)
+		f.cancel = cancel
+		opts := ChangesOptions{Since: SequenceID{}, Continuous: true, Wait: true, ChangesCtx: fctx}
+		ch, err := c.withUser(t, f.u).MultiChangesFeed(fctx, base.SetFromArray(f.req), opts)
+		if err != nil || ch == nil {
+			t.Fatalf("VERIF-FATAL continuous feed: %v", err)
+		}
+		go func(f *vC01cFeed) {
+			defer close(f.done)
+			for e := range ch {
+				if e == nil || e.Err != nil {
+					continue
+				}
+				rev := ""
+				if len(e.Changes) > 0 {
+					rev = e.Changes[0][ChangesVersionTypeRevTreeID]
+				}
+				removed := e.Removed.ToArray()
+				sort.Strings(removed)
+				f.mu.Lock()
+				f.rows = append(f.rows, vObj{"seq": e.Seq.String(), "tok": []int{int(e.Seq.LowSeq), int(e.Seq.TriggeredBy), int(e.Seq.Seq)},
+					"doc": e.ID, "rev": rev, "removed": removed, "del": e.Deleted})
+				f.have[e.ID] = rev
+				f.mu.Unlock()
+			}
+		}(f)
+	}
+	// writers
+	var wg sync.WaitGroup
+	sets := [][]string{{}, {"A"}, {"B"}, {"C"}, {"A", "B"}, {"B", "C"}}
+	for w := 0; w < nWriters; w++ {
+		wg.Add(1)
+		go func(w int, r *rand.Rand) {
+			defer wg.Done()
+			wc := &DatabaseCollectionWithUser{DatabaseCollection: col}
+			revs := map[string]string{}
+			dead := map[string]bool{}
+			mine := []string{fmt.Sprintf("w%d_a_%d", w, round), fmt.Sprintf("w%d_b_%d", w, round)}
+			for i := 0; i < perWriter; i++ {
+				d := mine[r.Intn(2)]
+				if revs[d] != "" && !dead[d] && r.Intn(5) == 0 {
+					rev, _, err := wc.DeleteDoc(ctx, d, DocVersion{RevTreeID: revs[d]})
+					if err != nil {
+						t.Errorf("VERIF-FATAL delete %s: %v", d, err)
+						return
+					}
+					revs[d], dead[d] = rev, true
+					continue
+				}
+				body := Body{"channels": sets[r.Intn(len(sets))], "k": i}
+				if revs[d] != "" {
+					body[BodyRev] = revs[d]
+				}
+				rev, _, err := wc.Put(ctx, d, body)
+				if err != nil {
+					t.Errorf("VERIF-FATAL put %s: %v", d, err)
+					return
+				}
+				revs[d], dead[d] = rev, false
+			}
+		}(w, rand.New(rand.NewSource(rnd.Int63())))
+	}
+	wg.Wait()
+	view := c.adminView(t, docs)
+	lines = append(lines, vObj{"a": "View", "views": []vObj{{"eq": false, "docs": view}}})
+	// listen until the feeds have been silent for 1.5 s (150 broadcast intervals), at most 15 s
+	count := func() int {
+		n := 0
+		for _, f := range feeds {
+			f.mu.Lock()
+			n += len(f.rows)
+			f.mu.Unlock()
+		}
+		return n
+	}
+	deadline := time.Now().Add(15 * time.Second)
+	last, lastChange := count(), time.Now()
+	for time.Now().Before(deadline) && time.Since(lastChange) < 1500*time.Millisecond {
+		time.Sleep(10 * time.Millisecond)
+		if n := count(); n != last {
+			last, lastChange = n, time.Now()
+		}
+	}
+	for _, f := range feeds {
+		f.cancel()
+		name := f.u
+		if name == "admin" {
+			name = ""
+		}
+		db.DatabaseContext.NotifyTerminatedChanges(ctx, name)
+	}
+	for _, f := range feeds {
+		select {
+		case <-f.done:
+		case <-time.After(5 * time.Second):
+			// a feed parked in Wait is woken by the termination notification; do not hang the harness on it
+		}
+		f.mu.Lock()
+		lines = append(lines, vObj{"a": "Cont", "u": f.u, "req": f.req, "ao": false, "resp": []vObj{{"eq": false, "rows": append([]vObj{}, f.rows...)}}})
+		f.mu.Unlock()
+	}
+	return lines
+}
+
+func TestVerif_C01_Continuous(t *testing.T) {
+	tw := vOpenTrace(t, "VERIF_TRACE_OUT_C")
+	defer tw.Close()
+	rnd := vRand()
+	rounds := vEnvInt("VERIF_C01_CONT_ROUNDS", 3)
+	for r := 0; r < rounds; r++ {
+		for _, l := range vC01cRun(t, rnd, r) {
+			tw.Emit(l)
+		}
+	}
 }
